@@ -140,7 +140,7 @@ CLAIMS["C10"] = {
     "text": "Tunnel level: while closing, a fresh new_stream yields exactly one close(Unavailable), no handler, unchanged table, tunnel up, id recorded (C10_refused); later "
             "frames of the refused RPC are ignored (C10_later_frames_ignored); every stimulus other than new_stream behaves identically whatever the flag "
             "(C10_flag_only_read_by_new_stream), so in-flight RPCs keep their outcome. " + _SRV + " " + _W1 + " Lifecycle world (real grpc-go on bufconn) for InitiateShutdown / "
-            "GracefulStop / Stop with zero, one and several tunnels, and the forward-shutdown world for several forward tunnels. Open findings D9 (GracefulStop waits for idle tunnels' peers) and D10 are KNOWN-FINDING.",
+            "GracefulStop / Stop with zero, one and several tunnels, and the forward-shutdown world for several forward tunnels. Open findings D9 (GracefulStop waits for idle tunnels' peers) and D10 are KNOWN-FINDING. Below the API (L-atomic model TunnelModel/LifeAtomic.lean: any number of concurrent Serve, Stop and GracefulStop calls, one action per critical section or blocking point, EVERY schedule): Stop returns only after every admitted Serve call has returned and none is admitted afterwards (C10_stop_returns_only_after_serves, C10_no_admission_after_shutdown), Stop cannot hang by itself and every schedule is finite (C10_stop_ends_every_tunnel), GracefulStop stays blocked until the peer hangs up or Stop runs (C10_gracefulStop_blocked_until_peer_or_stop_partial: finding D9 as a theorem about the model that follows the code), counter-models for the unlocked state check and for Stop's guard (C10_unlocked_check_admits_after_stop, C10_stop_guard_not_active_hangs).",
     "design_ref": "DESIGN.md A2 (C10), A4 (D9, D10)",
     "note": "Trusted: as C08. GracefulStop/Stop ordering is covered by the API-granular Lifecycle model and its world, not by an interleaving-level theorem.",
     "technique": "Lean 4 theorems over the endpoint model + step-exact correspondence incl. shutdown-flag stimuli and lifecycle world",
